@@ -181,8 +181,43 @@ def classify(case, out):
     return tags
 
 
+def gen_osent(rng, tier, mult):
+    """util/entropy.c over a scripted /dev/urandom: short reads of every shape, EOF, errors, open failure, EINTR on close"""
+    n = (600 if tier == "quick" else 8000) * mult
+    cases = []
+    for ci in range(n):
+        r = rng.fork("o%d" % ci)
+        ops = []
+        for _ in range(r.range(1, 3)):
+            need = r.choice([0, 1, 2, 31, 32, 33, 47, 48, 49, 64, r.range(1, 200)])
+            stream = r.bytes(need + r.range(0, 40))
+            items = []
+            k = r.below(10)
+            if k < 6:
+                for _ in range(r.range(0, 8)):
+                    items.append("c%d" % r.choice([1, 1, 2, 3, 5, 16, 31, 32, 47, 48, max(1, need - 1), max(1, need), need + 1, 1000]))
+            elif k < 8:
+                for _ in range(r.range(0, 4)):
+                    items.append("c%d" % r.choice([1, 2, 7, 16, 31]))
+                items.append(r.choice(["e", "x"]))
+            elif k == 8:
+                items.append("o")
+            else:
+                items += ["c%d" % r.range(1, 40), "i"]
+            ops.append("osread %d %s %s" % (need, vlib.hx(stream), ",".join(items) or "-"))
+        cases.append(ops)
+    return cases
+
+
 def components(ctx):
     return [vlib.Component(
+        "osent", "h_osent.c", ["util/entropy.c", "util/warnp.c"], ["osent"], gen_osent,
+        nontrivial=lambda c: any(",c" in o or " c" in o for o in c),
+        rule="entropy_read of 0..200 bytes (32 and 48 emphasised) from a scripted /dev/urandom: sequences of short reads of sizes "
+             "{1,2,3,5,16,31,32,47,48,n-1,n,n+1,1000}, EOF or EIO after some short reads, open() failure, EINTR on close; non-trivial = at least one short read",
+        classify=lambda case, out: ["osent:" + ("fail" if o.startswith("fail") else "ok") for o in out],
+        ldflags=["-Wl,--wrap=open,--wrap=read,--wrap=close"]),
+      vlib.Component(
         "drbg", "h_drbg.c", SRCS, ["drbg"], gen_drbg,
         nontrivial=lambda c: any(o.startswith("read") and o != "read 0" for o in c),
         rule="scripted OS entropy (48/32-byte answers, FAIL, wrong lengths, exhausted script) + read requests: lengths from "
